@@ -239,8 +239,11 @@ class ExpImpl:
                 all_d2 = [self.d2(d) for d in sp.calculate_distances(me.position.copy())[0]]
                 # the (k+1)-nearest answer the method filtered `me` out of
                 zeros = sum(1 for d in all_d2 if d == 0)
-                if zeros > kk + 1:
-                    return "ok res=ambiguous"  # more than k+1 agents coincide with `me`: numpy decides who is returned
+                if (zeros > kk + 1 and len(res) in (kk, kk + 1) and all(d == 0 for _, d in res)
+                        and len({a for a, _ in res}) == len(res) and int(w[1]) not in {a for a, _ in res}):
+                    # more than k+1 agents coincide with `me`: numpy decides whether `me` was among the k+1 it picked, so the
+                    # answer is k or k+1 distinct other agents at distance 0 (theorem C10_exp_nearest_neighbors_ties)
+                    return "ok res=ambiguous"
                 full = res + [(int(w[1]), 0)]
                 tie, can = knn_canon(all_d2, full)
                 return "ok res=" + fmt_knn([x for x in can if x[1] != int(w[1])])
@@ -588,6 +591,16 @@ class Gen:
                 return p
         return tuple(lo for lo, _ in self.bounds)
 
+    def half_way(self, p):
+        """a point of the space exactly half the size away from p on some axes (both periodic images equally near)"""
+        q = list(p)
+        for i, (lo, hi) in enumerate(self.bounds):
+            size = hi - lo
+            if size % 2 == 0 and self.R.random() < 0.7:
+                q[i] = p[i] + size // 2 if self.sp.inside([p[i] + size // 2 if j == i else x for j, x in enumerate(p)]) else p[i] - size // 2
+        q = tuple(q)
+        return q if self.sp.inside(q) else tuple(p)
+
     def radius(self, pt):
         R = self.R
         k = R.random()
@@ -661,6 +674,8 @@ class Gen:
                 self.emit(f"nbrs {self.fmt(pt)} {R.choice([r, self.radius(pt)])} {incl}")
         elif k < 0.96:
             p, q = self.inside_point(), self.inside_point()
+            if self.torus and R.random() < 0.3:
+                q = self.half_way(p)  # exactly half-way round: the tie of the heading rule
             if not self.torus and R.random() < 0.2:
                 p = self.point(0.4)
             self.emit(f"dist {self.fmt(p)} {self.fmt(q)}")
@@ -753,6 +768,8 @@ class Gen:
             self.emit(f"nn {self.member()} {max(kk, 0)}")
         elif k < 0.95:
             pt = self.inside_point()
+            if self.torus and sp.order and R.random() < 0.3 and sp.pos[sp.order[-1]] is not None:
+                pt = self.half_way(sp.pos[R.choice([a for a in sp.order if sp.pos[a] is not None])])
             sub = ""
             if R.random() < 0.4:
                 sub = " : " + " ".join(str(R.choice(sp.order)) for _ in range(R.randrange(0, 4)))
